@@ -6,7 +6,7 @@ import os
 import fam_lie
 
 CHECKS = {}
-for _p in ("C01", "C02", "C03", "C04", "C05"):
+for _p in ("C01", "C02", "C03", "C04", "C05", "C06"):
     CHECKS[_p] = fam_lie.check
 
 # families contributed as tools/registry_<family>.txt lines: "<PROP> <module>.<function>"
